@@ -246,7 +246,55 @@ PnmsgViol(r) ==
                \cup (IF r[8] = 0 THEN {} ELSE {<<"C18", "alloc">>})
                \cup (IF \A j \in {16, 17, 19, 20, 22, 23, 25, 26} : r[j] <= 127 THEN {} ELSE {<<"C04", "data-byte-out-of-range">>})
 
+(******************************* table `serde` *****************************)
+(* C19: ok => the value could have been built through the checked constructors;             *)
+(*      the natural representation of a valid value deserializes to an equal value.         *)
+SerdeViol(r) ==
+    CASE r[1] = 0 ->        \* [0,T,form,cls,v,ok,res]; form 0 = JSON integer
+           (IF r[6] = -2 THEN {<<"C19", "deserialize-panics">>} ELSE {})
+           \cup (IF r[6] = 1 /\ ~InRange(r[2], r[7]) THEN {<<"C19", "int-out-of-range-accepted">>} ELSE {})
+           \cup (IF r[6] = 1 /\ r[3] = 0 /\ ~(r[4] = 0 /\ r[7] = r[5]) THEN {<<"C19", "int-value-changed">>} ELSE {})
+           \cup (IF r[3] = 0 /\ TryOk(r[2], r[4], r[5]) /\ r[6] # 1 THEN {<<"C19", "int-valid-rejected">>} ELSE {})
+      [] r[1] = 1 ->        \* [1,T,src,cls,v,ok,res]; serde primitive value deserializers
+           (IF r[6] = -2 THEN {<<"C19", "deserialize-panics">>} ELSE {})
+           \cup (IF r[6] = 1 /\ ~(InRange(r[2], r[7]) /\ r[4] = 0 /\ r[7] = r[5]) THEN {<<"C19", "int-out-of-range-accepted">>} ELSE {})
+           \cup (IF r[3] \in {0, 2} /\ TryOk(r[2], r[4], r[5]) /\ r[6] # 1 THEN {<<"C19", "int-valid-rejected">>} ELSE {})
+      [] r[1] = 2 ->        \* RawShortMessage from [s,d1,d2]
+           IF r[2] = -9 THEN (IF r[5] = -2 THEN {<<"C19", "deserialize-panics">>} ELSE {})
+           ELSE LET valid == ValidStatus(r[2]) /\ r[3] \in 0..127 /\ r[4] \in 0..127 IN
+                (IF r[5] = -2 THEN {<<"C19", "deserialize-panics">>} ELSE {})
+                \cup (IF r[5] = 1 /\ ~valid THEN {<<"C19", "raw-invalid-accepted">>} ELSE {})
+                \cup (IF valid /\ r[5] # 1 THEN {<<"C19", "raw-valid-rejected">>} ELSE {})
+                \cup (IF valid /\ r[5] = 1 /\ ~(<<r[6], r[7], r[8]>> = <<r[2], r[3], r[4]>> /\ r[9] = TypeOf(r[2]))
+                      THEN {<<"C19", "raw-value-changed">>} ELSE {})
+      [] r[1] = 3 ->        \* ControlChange14BitMessage
+           LET valid == r[2] \in 0..15 /\ r[3] \in 0..31 /\ r[4] \in 0..16383 IN
+           (IF r[5] = -2 THEN {<<"C19", "deserialize-panics">>} ELSE {})
+           \cup (IF r[5] = 1 /\ ~valid THEN {<<"C19", "cc14-invalid-accepted">>} ELSE {})
+           \cup (IF valid /\ r[5] # 1 THEN {<<"C19", "cc14-valid-rejected">>} ELSE {})
+           \cup (IF valid /\ r[5] = 1 /\ ~(<<r[6], r[7], r[8]>> = <<r[2], r[3], r[4]>> /\ r[9] = r[3] + 32 /\ r[10] = r[3] + 32)
+                 THEN {<<"C19", "cc14-value-changed">>} ELSE {})
+      [] r[1] = 4 ->        \* ParameterNumberMessage
+           LET msg == <<r[2], r[3], r[4], r[5], r[6], r[7]>>
+               valid == r[7] <= 2 /\ PnValid(msg) IN
+           (IF r[8] = -2 THEN {<<"C19", "deserialize-panics">>} ELSE {})
+           \cup (IF r[8] = 1 /\ ~valid THEN {<<"C19", "pn-inconsistent-accepted">>} ELSE {})
+           \cup (IF valid /\ r[8] # 1 THEN {<<"C19", "pn-valid-rejected">>} ELSE {})
+           \cup (IF valid /\ r[8] = 1 /\ Sub(r, 9, 6) # msg THEN {<<"C19", "pn-value-changed">>} ELSE {})
+      [] r[1] = 5 ->        \* StructuredShortMessage
+           LET x == <<r[2], r[3], r[4], r[5]>>  valid == StructuredValid(x) IN
+           (IF r[6] = -2 THEN {<<"C19", "deserialize-panics">>} ELSE {})
+           \cup (IF r[6] = 1 /\ ~valid THEN {<<"C19", "structured-invalid-accepted">>} ELSE {})
+           \cup (IF valid /\ r[6] # 1 THEN {<<"C19", "structured-valid-rejected">>} ELSE {})
+           \cup (IF valid /\ r[6] = 1 /\ Sub(r, 7, 4) # x THEN {<<"C19", "structured-value-changed">>} ELSE {})
+      [] r[1] = 6 ->        \* ShortMessageType
+           (IF r[3] = B2I(r[2] \in TypeBytes) THEN {} ELSE {<<"C19", "type-accepts-iff-valid">>})
+           \cup (IF r[3] = 1 /\ r[4] # r[2] THEN {<<"C19", "type-value-changed">>} ELSE {})
+      [] r[1] = 7 ->        \* natural representation round trip
+           (IF r[7] = 1 /\ r[8] = 1 THEN {} ELSE {<<"C19", "natural-representation-roundtrip">>})
+
 RowViol(r) == CASE Table = "short" -> ShortViol(r)
+                [] Table = "serde" -> SerdeViol(r)
                 [] Table = "factory" -> FactoryViol(r)
                 [] Table = "pnmsg" -> PnmsgViol(r)
                 [] Table = "ints" -> IntsViol(r)
